@@ -165,7 +165,15 @@ def gen_overlap(rng, seed, tier):
         lc = {}
         for _ in range(rng.choice([1, 1, 2])):
             t = rng.choice(LISTENER_TYPES)
-            cmd = list(rng.choice([["stop"], ["stop"], ["start"], ["start"], ["step"]]))
+            cmd = list(rng.choice([["stop"], ["stop"], ["start"], ["start"], ["step"],
+                                   ["end_replication"]]))
+            if cmd[0] == "end_replication" and t not in ("START", "STOP", "TIME_CHANGED",
+                                                         "WARMUP"):
+                # only from notifications of the executing (run or stepping)
+                # thread, where it is equivalent to a call from a handler; from
+                # the caller-side notifications of start()/stop() it is
+                # unspecified (the command in progress would have to re-check)
+                cmd = ["stop"]
             lc.setdefault(t, []).append([rng.choice([1, 1, 2, 3]), cmd])
         case["listener_cmds"] = lc
     # the script
@@ -209,6 +217,12 @@ def gen_overlap(rng, seed, tier):
                   d=rng.choice([1, 2, 3, 4]))
     if rng.random() < 0.15:
         sc["oversleep"] = 3.0
+    # grace-period faults: mostly in the thorough tier
+    heavy = 0.25 if tier == "thorough" else 0.04
+    if kind != "S0" and rng.random() < heavy:
+        sc["stall"] = rng.choice([0.3, 0.6])
+    if rng.random() < heavy:
+        sc["clock_jumps"] = {str(rng.randint(1, 40)): rng.choice([2.0, -2.0, 2.0])}
     case["sched"] = sc
     return case
 
@@ -542,6 +556,8 @@ def execute(case):
         cnt["fault:timer_fire"] = r.det.n_timer_fire
     if r.det.n_fault_clock_jump:
         cnt["fault:clock_jump"] = r.det.n_fault_clock_jump
+    if r.det.n_stall:
+        cnt["fault:stall"] = r.det.n_stall
     sites = tuple(r.det.sites)
     res["sets"]["interleavings"] = [common.digest8([sites, case["commands"]])] if sites else []
     res["sets"]["state_tuples"] = list({(h[4], h[5], h[6], h[7], h[2] != 0,
